@@ -27,7 +27,11 @@ EXPLANATION = (
     "SIB-1: the fast and the slow reference propagators have identical prologues (same def-use terms for "
     "walkers, weights, overlaps entering the first scan), identical block descriptor sequences per scan, "
     "and identical epilogues modulo the scan result. TS-1..3 (cache coherence of overlaps and Green's "
-    "functions through all blocks) is re-run for the four CPMC propagator classes."
+    "functions through all blocks) is re-run for the four CPMC propagator classes. "
+    "PAIR-2 on the Hubbard-Stratonovich tables built by init_prop_data: prefactor * [[e^g, e^-g], "
+    "[e^-g, e^g]], prefactor exp(-dt U/2) and gamma = arccosh(exp(dt U/2)) read the same coupling (u on "
+    "site, u_1 for neighbours); SIB-1: the tables are the same function of (dt, U) in the fast and the "
+    "slow classes. "
 )
 NOT_DECIDED = (
     "exact unbiasedness over the 2^n field configurations; correctness of the Wick ratio and the "
